@@ -280,6 +280,8 @@ def run(prog, rep):
             return None if f2 is None else (f2, st[1])
         if not any(n["k"] == "asg" and strip_casts(n["l"]) is not None and strip_casts(n["l"])["k"] == "member" and strip_casts(n["l"])["field"] == "balance_factor" for (b, i, n) in fv_.nodes(elsewhere=True)):
             continue
+        if not any(c.get("callee") in ("p_malloc0", "p_malloc") for (b, i, c) in fv_.calls()):
+            continue          # a function that makes no node (remove: the leaf moved into a removed node's place gets 0, the previous clause)
         _Flow(fv_, [(_g.EMPTY, False)], fs, fe, max_states=20000).run()
         rep.ob("C13.4", f_, "factor-stores:fresh", not stale, "outside the retracing helpers %s sets a balance factor only on a path that allocated the node in this call" % f_.name if not stale else
                "line %d: %s stores into the balance factor of a node that was already part of the tree (no allocation on this path - the replace path): the node keeps its "
